@@ -58,6 +58,9 @@ fn main() {
                     std::process::exit(2);
                 }
             };
+            if std::env::var("VERIF_INNER").is_err() {
+                std::process::exit(supervise(p.id, tier));
+            }
             engine::panics::install_silent_hook();
             if let Err(e) = oracle::self_check() {
                 eprintln!("INFRA-ERROR oracle self-check failed: {}", e);
@@ -81,6 +84,23 @@ fn main() {
                     std::process::exit(2);
                 }
             };
+            if std::env::var("VERIF_INNER").is_err() {
+                // run the replay in a child so that a case that kills the process is still reported
+                use std::os::unix::process::ExitStatusExt;
+                let st = std::process::Command::new(std::env::current_exe().unwrap()).args(["replay", &id, &args[3]]).env("VERIF_INNER", "1").status();
+                match st {
+                    Ok(s) if s.code().map(|c| (0..=2).contains(&c)).unwrap_or(false) => std::process::exit(s.code().unwrap()),
+                    Ok(s) => {
+                        println!("VIOLATION property={} replay={}", id, args[3]);
+                        println!("  signature={}:process-killed/signal-{} :: executing this case terminates the process", id, s.signal().unwrap_or(0));
+                        std::process::exit(1);
+                    }
+                    Err(e) => {
+                        eprintln!("INFRA-ERROR replay: {}", e);
+                        std::process::exit(2);
+                    }
+                }
+            }
             engine::panics::install_silent_hook();
             let ctx = Ctx::new(p.id, Tier::Quick, seed, true);
             let r = engine::replay_file(&p, &ctx, std::path::Path::new(&args[3]));
@@ -108,6 +128,73 @@ fn main() {
             usage();
         }
     }
+}
+
+/// Supervisor: the check itself runs in a child process, so that a case which kills the process (stack overflow,
+/// abort, allocation failure) is identified and reported instead of taking the check down with it.
+fn supervise(id: &str, tier: Tier) -> i32 {
+    use std::os::unix::process::ExitStatusExt;
+    use std::process::{Command, Stdio};
+    let exe = std::env::current_exe().expect("current_exe");
+    let run = |journal: Option<&std::path::Path>, quiet: bool| {
+        let mut c = Command::new(&exe);
+        c.args(["check", id, "--tier", tier.name()]).env("VERIF_INNER", "1");
+        if let Some(j) = journal {
+            c.env("VERIF_JOURNAL", j);
+        }
+        if quiet {
+            c.stdout(Stdio::null()).stderr(Stdio::null());
+        }
+        c.status()
+    };
+    let st = match run(None, false) {
+        Ok(s) => s,
+        Err(e) => {
+            eprintln!("INFRA-ERROR cannot start the check process: {}", e);
+            return 2;
+        }
+    };
+    if let Some(code) = st.code() {
+        if (0..=2).contains(&code) {
+            return code;
+        }
+    }
+    eprintln!("check process for {} terminated abnormally ({:?}, signal {:?}); re-running with a case journal", id, st.code(), st.signal());
+    let dir = engine::tmp::root().join("journal");
+    let _ = std::fs::create_dir_all(&dir);
+    let again = run(Some(&dir), true);
+    let mut candidates: Vec<std::path::PathBuf> = std::fs::read_dir(&dir).map(|rd| rd.filter_map(|e| e.ok()).map(|e| e.path()).collect()).unwrap_or_default();
+    candidates.sort();
+    let mut verdict = 2;
+    if again.map(|s| s.code().map(|c| !(0..=2).contains(&c)).unwrap_or(true)).unwrap_or(false) {
+        for cand in &candidates {
+            let r = Command::new(&exe).args(["replay", id, cand.to_str().unwrap()]).env("VERIF_INNER", "1").stdout(Stdio::null()).stderr(Stdio::null()).status();
+            let died = r.as_ref().map(|s| s.code().map(|c| !(0..=2).contains(&c)).unwrap_or(true)).unwrap_or(false);
+            if died {
+                let sig = r.ok().and_then(|s| s.signal()).unwrap_or(0);
+                let text = std::fs::read_to_string(cand).unwrap_or_default();
+                let mut v: serde_json::Value = serde_json::from_str(&text).unwrap_or(serde_json::Value::Null);
+                let part = v.get("part").and_then(|p| p.as_str()).unwrap_or("?").to_string();
+                if let Some(o) = v.as_object_mut() {
+                    o.insert("signature".into(), serde_json::json!(format!("{}:process-killed/signal-{}", id, sig)));
+                    o.insert("message".into(), serde_json::json!("executing this case terminates the process (stack overflow, abort or fatal signal) instead of returning"));
+                }
+                let out_dir = engine::util::verif_root().join("replays");
+                let _ = std::fs::create_dir_all(&out_dir);
+                let out = out_dir.join(format!("{}-{}-killed-{:016x}.json", id, part, engine::util::fnv64(text.as_bytes())));
+                let _ = std::fs::write(&out, serde_json::to_string_pretty(&v).unwrap_or_default());
+                println!("VIOLATION property={} replay={}", id, out.display());
+                println!("  part={} signature={}:process-killed/signal-{} :: a generated case terminates the process", part, id, sig);
+                verdict = 1;
+                break;
+            }
+        }
+    }
+    if verdict == 2 {
+        eprintln!("INCONCLUSIVE: the abnormal termination could not be attributed to a single case");
+    }
+    engine::tmp::cleanup_root();
+    verdict
 }
 
 /// A run that exceeds a generous multiple of its expected time is inconclusive (exit 2), never a violation.
